@@ -162,6 +162,21 @@ let handle_g (t : 'a inst) cmd g =
     let n = int_of_string ns in
     let (((r, l), p), _) = pstrf_full t.o t.abs psbs (nat_of_int n) t.epsm (gfmat t (gmat_of t n n al)) in
     Some (Printf.sprintf "P OK %d ; %s ; %s" (int_of_nat r) (gmstr t n n l) (pstr n p))
+  | "J", [[_ao; ns; ms; eps; maxit]; al; bl] ->
+    (* conjugate_gradient(eps,maxit): vector solve of column 0 (left = right), matrix solve left (columns), right on trans(B) (rows) *)
+    let n = int_of_string ns and m = int_of_string ms and mi = int_of_string maxit in
+    let nn = nat_of_int n and a = gfmat t (gmat_of t n n al) and b = gmat_of t n m bl in
+    let fuel = nat_of_int (if mi > 0 then mi + 1 else 4 * n + 40) in
+    let colv c = gfvec t (Array.init n (fun i -> b.(i).(c))) in
+    let ov = cg_solve_v t.o t.abs fuel nn a (t.parse eps) (nat_of_int mi) (colv 0) in
+    let oc = List.init m (fun c -> cg_col t.o t.abs fuel nn a (t.parse eps) (nat_of_int mi) (colv c)) in
+    if ov.cg_why = StopFuel || List.exists (fun o -> o.cg_why = StopFuel) oc then Some "J FUEL"
+    else
+      let xs = List.map (fun o -> Array.of_list (tab nn o.cg_x)) oc |> Array.of_list in
+      let xv = gvstr t n ov.cg_x in
+      let xl = String.concat " " (List.concat (List.init n (fun i -> List.init m (fun c -> t.show xs.(c).(i)))))
+      and yl = String.concat " " (List.concat (List.init m (fun r -> List.init n (fun i -> t.show xs.(r).(i))))) in
+      Some (Printf.sprintf "J OK %s ; %s ; %s ; %s" xv xv xl yl)
   | "U", [[ao; ns; alpha; beta]; al; vl] ->
     (* cholesky_decomposition d(A); d.update(alpha, beta, v); d.lower_factor() *)
     let n = int_of_string ns in let nn = nat_of_int n in
